@@ -134,6 +134,27 @@ def rule_2(ctx):
             ctx.expect(not kept, call, f'{cref.split(":")[-1]}(...) not kept on a long-lived object',
                        'an evaluation context is stored on the evaluator/model: its memo would outlive the evaluate() call')
     n_memo = 0
+    # containers on `self` that some function of the evaluation core writes into (outside __init__): only those can be memos;
+    # a table that is never written (a class-level dispatch table read through self) is a constant
+    written = set()
+    for m, qual, fn in evalcore.core_functions(ctx):
+        if qual.endswith('.__init__'):
+            continue
+        wcref = evalcore.class_of_method(m, qual)
+        for node in walk_local(fn):
+            tgt = None
+            if isinstance(node, (ast.Assign, ast.AugAssign)):
+                for t in (node.targets if isinstance(node, ast.Assign) else [node.target]):
+                    if isinstance(t, ast.Subscript) and evalcore.self_attr(t.value):
+                        tgt = evalcore.self_attr(t.value)
+                    elif isinstance(t, ast.Attribute) and evalcore.self_attr(t):
+                        tgt = evalcore.self_attr(t)         # the container itself is (re)bound during evaluation
+            elif isinstance(node, ast.Call) and isinstance(node.func, ast.Attribute) \
+                    and node.func.attr in ('setdefault', 'update', 'append', 'add', 'extend', 'insert', 'pop', 'popitem', 'clear') \
+                    and evalcore.self_attr(node.func.value):
+                tgt = evalcore.self_attr(node.func.value)
+            if tgt:
+                written.add((wcref, tgt))
     for m, qual, fn in evalcore.core_functions(ctx):
         cref = evalcore.class_of_method(m, qual)
         # memoising decorators
@@ -152,7 +173,7 @@ def rule_2(ctx):
                 elif isinstance(x, ast.Call) and isinstance(x.func, ast.Attribute) and x.func.attr == 'get' \
                         and evalcore.self_attr(x.func.value):
                     attr = evalcore.self_attr(x.func.value)
-                if attr:
+                if attr and (cref, attr) in written:
                     n_memo += 1
                     ok = cref in per_call
                     ctx.expect(ok, x, f'memo read self.{attr}[...] in {qual}',
@@ -171,7 +192,7 @@ def rule_2(ctx):
                 elif isinstance(v, ast.Call) and isinstance(v.func, ast.Attribute) and v.func.attr == 'get' \
                         and evalcore.self_attr(v.func.value):
                     attr = evalcore.self_attr(v.func.value)
-                if attr and any(a.targets[0].id in deps.closure(names_in(r.value)) for r in value_returns(fn)):
+                if attr and (cref, attr) in written and any(a.targets[0].id in deps.closure(names_in(r.value)) for r in value_returns(fn)):
                     n_memo += 1
                     ok = cref in per_call
                     ctx.expect(ok, a, f'memo read self.{attr}[...] in {qual}',
@@ -309,14 +330,15 @@ HISTORY_CELLS = {
     'A1': 5, 'A2': 100, 'A3': 7, 'B1': '=A1+1', 'B2': '=A2*2', 'B3': '=A3-1', 'C1': '=B1*2', 'D1': '=SUM(B1:B3)+A2', 'E1': '=D1-C1',
     'F1': '=IF(A1>0,B1,C1)', 'G1': '=AND(B1:B3)', 'H1': '=SUM(B1:B2,B3)', 'I1': '=IF(G1,"all",IF(OR(B1:B3),"some","none"))',
     'J1': '=MAX(A1:A3)&"|"&MIN(B1:B3)', 'K1': '=IF(NOT(A1>A3),A2,-A2)', 'L1': '=COUNT(A1:B3)+AVERAGE(B1:B3)',
+    'M1': '=-A1+A2', 'N1': '=-(B1)%', 'O1': '=SUM(A1:A5)+COUNT(A1:A5)*1000',
 }
-_ALL = ['B1', 'C1', 'D1', 'E1', 'F1', 'G1', 'H1', 'I1', 'J1', 'K1', 'L1']
+_ALL = ['B1', 'C1', 'D1', 'E1', 'F1', 'G1', 'H1', 'I1', 'J1', 'K1', 'L1', 'M1', 'N1', 'O1']
 
 
 def _history_steps(full):
     ev = [('eval', a) for a in _ALL]
     some = [('eval', a) for a in ('E1', 'F1', 'G1', 'H1', 'I1', 'K1')]
-    steps = ev + [('set', 'A1', -1)] + ev + [('set', 'A3', 1)] + some + [('set', 'A2', 0), ('set', 'A1', 5)] + ev
+    steps = ev + [('set', 'A1', -1)] + ev + [('set', 'A3', 1), ('set', 'A4', 50)] + some + [('eval', 'O1'), ('eval', 'M1'), ('set', 'A2', 0), ('set', 'A1', 5)] + ev
     if full:
         steps += [('set', 'A3', 9), ('eval', 'J1'), ('eval', 'B3'), ('set', 'A2', -3), ('eval', 'D1'), ('eval', 'E1'), ('set', 'A1', 0)] + ev
     return steps
